@@ -98,11 +98,12 @@ type c11Shared struct {
 	premul     *image.RGBA
 	rejects    []c11Reject
 	// convert-own / tiles
-	opaqueRGBA  *image.RGBA
-	opaqueNRGBA *image.NRGBA
-	tileParents []draw.Image
-	tileN       int
-	convSources []image.Image
+	opaqueRGBA     *image.RGBA
+	opaqueNRGBA    *image.NRGBA
+	tileParents    []draw.Image
+	tileN          int
+	convSources    []image.Image
+	headerProfiles [][]byte
 }
 
 // c11Reject is one input of the "rejects" target: mostly inputs a loader turns down, each for a
@@ -240,7 +241,16 @@ func newC11Shared() *c11Shared {
 	}
 	{
 		crng := core.NewRNG(1, "c11conv")
-		for _, kind := range []string{"NRGBA", "RGBA", "NRGBA64", "RGBA64", "YCbCr420", "Gray", "Gray16", "Paletted", "CMYK", "NYCbCrA", "Alpha"} {
+		for i, sig := range []string{"2CLR", "3CLR", "4CLR", "5CLR", "6CLR", "7CLR", "8CLR", "9CLR", "ACLR", "BCLR", "CCLR", "DCLR", "ECLR", "FCLR", "XYZ ", "Lab ", "Luv ", "YCbr", "Yxy ", "RGB ", "GRAY", "HSV ", "HLS ", "CMYK", "CMY ", "zzzz"} {
+			hd := imggen.MinimalHeader(i%2 == 0)
+			copy(hd[16:20], sig)
+			copy(hd[20:24], []string{"XYZ ", "Lab ", sig}[i%3])
+			copy(hd[12:16], []string{"scnr", "mntr", "prtr", "link", "spac", "abst", "nmcl", "qqqq"}[i%8])
+			copy(hd[40:44], []string{"APPL", "MSFT", "SGI ", "SUNW", "TGNT", "yyyy"}[i%6])
+			pb, _ := imggen.ICCSpec{Header: hd, KeepSig: true, Tags: []imggen.ICCTag{{Sig: "cprt", Data: []byte{1, 2, 3, 4}}}}.Build()
+			sh.headerProfiles = append(sh.headerProfiles, pb)
+		}
+		for _, kind := range []string{"NRGBA", "RGBA", "NRGBA64", "RGBA64", "YCbCr420", "YCbCr444", "YCbCr422", "Gray", "Gray16", "Paletted", "CMYK", "NYCbCrA", "Alpha"} {
 			sh.convSources = append(sh.convSources, newSource(kind, image.Rect(1, 2, 18, 13), kind == "RGBA", crng))
 		}
 	}
@@ -593,6 +603,14 @@ func c11Step(target string, g, it int, sh *c11Shared) uint64 {
 			}
 			c11AloneMu.Unlock()
 		}
+	case target == "xyz":
+		// XYZ conversions in both directions, from the first call of the process on, space by goroutine
+		s := libSpaces[(g+it/7)%len(libSpaces)]
+		v := float32(code) / 65535
+		x := s.ToXYZ(linear.RGB{R: v, G: 1 - v, B: v / 2})
+		c := s.FromXYZ(ciexyz.Color{X: v, Y: 0.5, Z: 1 - v})
+		h = mix(h, uint64(float32bits(x.X))<<32|uint64(float32bits(x.Z)))
+		h = mix(h, uint64(float32bits(c.R))<<32|uint64(float32bits(c.B)))
 	case target == "icc":
 		if it%10 != 0 {
 			return 0
@@ -602,6 +620,12 @@ func c11Step(target string, g, it int, sh *c11Shared) uint64 {
 			d, _ := p.Description()
 			h = mix(h, fnv64([]byte(d)))
 			h = mix(h, uint64(p.Header.ProfileSize))
+		}
+		// headers with every registered colour-space / class / platform signature, read and printed
+		// (the header's own String methods) by all goroutines from the first call on
+		hp := sh.headerProfiles[(g+it/10)%len(sh.headerProfiles)]
+		if p2, err2, _ := readProfile(bytes.NewReader(hp)); err2 == nil && p2 != nil {
+			h = mix(h, fnv64([]byte(fmt.Sprintf("%v|%+v", p2.Header.Version, p2.Header))))
 		}
 	case target == "mixed":
 		all := []string{"srgb.both", "adobergb.both", "prophotorgb.both", "displayp3", "colors", "adapt", "tables8", "loaders", "images"}
@@ -629,10 +653,11 @@ func float32bits(f float32) uint32 {
 }
 
 var c11Targets = []string{"srgb.from16", "srgb.to16", "srgb.both", "adobergb.from16", "adobergb.to16", "adobergb.both", "prophotorgb.from16", "prophotorgb.to16", "prophotorgb.both",
-	"displayp3", "colors", "tables8", "images", "images-inplace", "images-rgba64", "images-wide", "images-shapes", "tiles", "convert-own", "shared-objects", "convert-premul", "generate", "hash-transform", "convert", "adapt", "loaders", "rejects", "icc", "mixed"}
+	"displayp3", "colors", "tables8", "images", "images-inplace", "images-rgba64", "images-wide", "images-shapes", "tiles", "convert-own", "shared-objects", "convert-premul", "generate", "hash-transform", "convert", "adapt", "xyz", "loaders", "rejects", "icc", "mixed"}
 
 func c11Lazy(t string) bool {
 	return strings.Contains(t, ".from16") || strings.Contains(t, ".to16") || strings.Contains(t, ".both") || t == "displayp3" || t == "colors" || t == "mixed"
+	// ("xyz" has nothing lazy on the unchanged tree: overlap of its first calls is not required)
 }
 
 const c11Iters = 400
